@@ -433,7 +433,7 @@ def main():
                 continue
             rf = {"engine": b.part["engine"], "property": prop, "profile": b.part["profile"], "tier": tier, "index": c["begin"]["index"],
                   "seed": c["begin"]["seed"], "choices": vals, "violation": v, "log_hash": "", "opts": b.part.get("opts", []),
-                  "stderr_tail": c["stderr"][-3000:]}
+                  "stderr_head": c["stderr"][:3000]}
             path = os.path.join(OUT, "replays", prop, "crash-%d.json" % c["begin"]["index"])
             write_replay(path, rf)
             got = outcome_of(*replay_once(path, prop), prop)
